@@ -59,6 +59,8 @@ var tails = []string{"", "", "", "/", "/prefix", "/a/b/", "?q=1", "#frag", "/%zz
 var notorious = []string{"https://%zz", "http://[::1", "https://", "https:///path", "https://host:port", "https://a b",
 	"https://127.0.0.1:6443\n", "http://", "http:///", "https://?x", "https://#f", "https://:6443", "http://%"}
 
+var rawAlphabet = []byte("%/:?#[]@ \x00\x7f\xffaz09.-")
+
 func (g *gen) goodEndpoint(scheme string) string {
 	return scheme + "://" + g.pick(goodHosts...) + g.pick(ports...) + g.pick("", "", "", "/", "/prefix")
 }
@@ -80,7 +82,7 @@ func (g *gen) wildEndpoint(scheme string) string {
 		n := g.r.Intn(6)
 		b := make([]byte, n)
 		for i := range b {
-			b[i] = "%/:?#[]@ \x00\x7f\xffaz09.-"[g.r.Intn(22)]
+			b[i] = rawAlphabet[g.r.Intn(len(rawAlphabet))]
 		}
 		return scheme + "://" + string(b)
 	}
